@@ -26,7 +26,7 @@ func TestCheck(t *testing.T) {
 	defer r.Finish()
 	r.SetRule("case = (base history b, shutdown step k, loop mode): the driver picks, from a PRNG derived from (seed,b), " +
 		"scheduler replies (execute new/same digest with all optional fields varied: w3c_trace_context empty/one/several/malformed entries, auxiliary_metadata, instance_name_suffix, digest function, queued_timestamp, action timeout; idle, no change, RPC error, invalid timestamp, unknown state, invalid execute request), " +
-		"executor progress (updates, completion with OK/non-OK status, reaction to cancellation incl. >10 late updates), readiness failures, " +
+		"executor progress (updates, completion with OK (absent or explicit status, zero/non-zero exit code) or non-OK status of each of the 16 codes, readiness failures right after a non-OK completion, reaction to cancellation incl. >10 late updates), readiness failures, " +
 		"virtual clock advances and timer firings; shutdown (context cancellation) is injected before step k wherever the client is parked then (between Runs, in Synchronize, in the timer/update select, while the executor is gated) or, for half of the variants, from inside Run itself (in the CheckReadiness callback or right after the wait timer was created). mirror mode = LaunchWorkerThread's loop " +
 		"with the error back-off sleep replaced by a gate; real mode = builder.LaunchWorkerThread itself under program.RunLocal. " +
 		"non-trivial = the case hit at least one counted situation; distinct = hash of the boundary event history (requests, replies, executor events, run results)")
@@ -65,6 +65,16 @@ func TestCheck(t *testing.T) {
 	r.Floor("shutdown-inside-run-at-timer", 5)
 	r.Floor("shutdown-inside-run-at-readiness", 5)
 	r.Floor("request-built-after-shutdown-inside-run", 5)
+	// Clause audit: "a non-OK status" means every code, not only the one the
+	// runner-failure path produces; the readiness re-check that a failure
+	// calls for must also be seen failing; Execute must be started for the
+	// instance (prefix + suffix) and digest function the scheduler named.
+	for _, c := range nonOKCodes {
+		r.Floor("non-ok-completion-reported code="+c.String(), 5)
+	}
+	r.Floor("readiness-failure-after-non-ok-completion", 10)
+	r.Floor("execute-instance-suffix=empty", 20)
+	r.Floor("execute-instance-suffix=set", 20)
 
 	bases := r.Pick(500, 4000)
 	perBase := r.Pick(4, 16)
